@@ -22,7 +22,7 @@ SUITES = {
 }
 BOUNDS = ('pipeline: 0..2 middlewares x 4 verdicts x 3 hooks x 5 reducer chains x {0,2} subscribers; loop: 5 chains x {0,1,3} subscribers x '
           'capacities {1,2,16} x 5 action sequences (<= 7); channel: 3 policies x capacities 1..3 x bursts <= 2*cap+2; builder: all call '
-          'sequences <= 2 (+4 third calls) over 12 setters; selector: all sequences over 3 values up to length 5; subs: 1..4 subscribers x target x {stop, drop}; block: 2 entry points x capacities {1,2} with the reducer parked; channeled: 3 policies x capacities {1,3} x {unsubscribe, stop} with the subscriber parked; iter: 5 scenarios (<= 5 actions, Keep mix, full DropLatest queue at close); latereg: reducer / middleware / subscriber registered from another thread while an action is being reduced; twostores: stop of one store from a subscriber of another, equal/different names; balance: the equations of C18 after stop() for 3 policies x capacities {1,2} x {0,2} dispatches after close x with/without a vetoing middleware, the reducer parked while the queue fills')
+          'sequences <= 2 (+4 third calls) over 12 setters; selector: all sequences over 3 values up to length 5; subs: 1..4 subscribers x target x {stop, drop}; block: 2 entry points x capacities {1,2,4} with the reducer parked (+ closerace, reentrant, effectaction); channeled: 3 policies x capacities {1,3} x {unsubscribe, stop} with the subscriber parked; iter: 5 scenarios (<= 5 actions, Keep mix, full DropLatest queue at close); latereg: reducer / middleware / subscriber registered from another thread while an action is being reduced; twostores: stop of one store from a subscriber of another, equal/different names; balance: the equations of C18 after stop() for 3 policies x capacities {1,2} x {0,2} dispatches after close x with/without a vetoing middleware, the reducer parked while the queue fills')
 
 
 def _run(repo, mode, work, timeout=900):
